@@ -35,6 +35,9 @@ func rulesC01(c *Ctx) {
 	// what that policy then handles: the decision table of its OnFailure is part of the nesting
 	retryDecision(c, map[string]bool{"decision": true})
 	c04Gate(c)
+	// … and what "admits" means for a breaker is its states' admission tables (an execution that half-opens the
+	// breaker must itself take a trial permit)
+	c03OpenTable(c)
 	c04Pairing(c)
 	c05Executor(c)
 	c06Pairing(c)
